@@ -7,6 +7,7 @@ pub mod dag;
 pub mod driver;
 pub mod model;
 pub mod p_checkout;
+pub mod p_cli;
 pub mod p_crash;
 pub mod p_diff;
 pub mod p_files;
@@ -69,6 +70,9 @@ pub fn dispatch(ctx: &Ctx) -> Option<i32> {
         "C31" => p_matchers::run_c31(ctx),
         "C32" => p_paths::run_c32(ctx),
         "C33" => p_paths::run_c33(ctx),
+        "C40" => p_cli::run_c40(ctx),
+        "C41" => p_cli::run_c41(ctx),
+        "C42" => p_cli::run_c42(ctx),
         "C43" => p_ignore::run_c43(ctx),
         "C46" => p_history::run_c46(ctx),
         _ => return None,
